@@ -1474,6 +1474,58 @@ func (fr *oFrame) call(call *ast.CallExpr) []oval {
 				return out
 			}
 		}
+		if fr.it.symbolic && fr.it.valuation != nil && len(args) > 0 {
+			// |x|, min and max of symbolic values: the reference valuation says which operand (or
+			// sign) it is; the choice is recorded as a path condition
+			inf := func(v oval) (int, bool) {
+				if f, ok := v.(oFloat); ok && (f.r >= oInf || f.r <= -oInf) {
+					if f.r > 0 {
+						return 1, true
+					}
+					return -1, true
+				}
+				return 0, false
+			}
+			switch f.Name() {
+			case "Abs":
+				if p, ok := symOf(args[0]); ok {
+					if v, ok := symEval(p, fr.it.valuation); ok {
+						fr.it.pathConds = append(fr.it.pathConds, fmt.Sprintf("sign of %s", p.canon()))
+						if v < 0 {
+							return one(symVal(p.scale(big.NewRat(-1, 1))))
+						}
+						return one(symVal(p))
+					}
+				}
+			case "Min", "Max":
+				isMin := f.Name() == "Min"
+				if s, ok := inf(args[0]); ok {
+					if (s > 0) == isMin {
+						return one(args[1])
+					}
+					return one(args[0])
+				}
+				if s, ok := inf(args[1]); ok {
+					if (s > 0) == isMin {
+						return one(args[0])
+					}
+					return one(args[1])
+				}
+				p, ok1 := symOf(args[0])
+				q, ok2 := symOf(args[1])
+				if ok1 && ok2 {
+					x, okx := symEval(p, fr.it.valuation)
+					y, oky := symEval(q, fr.it.valuation)
+					if okx && oky {
+						fr.it.pathConds = append(fr.it.pathConds, fmt.Sprintf("order of %s and %s", p.canon(), q.canon()))
+						if (x < y) == isMin {
+							return one(args[0])
+						}
+						return one(args[1])
+					}
+				}
+			}
+		}
 		if fr.it.symbolic && len(args) > 0 {
 			var ps []poly
 			for _, a := range args {
